@@ -90,12 +90,13 @@ func (h *httpHandler) ServeHTTP(w http.ResponseWriter, r *http.Request) {
 		return
 	}
 
-	var wg sync.WaitGroup
+	// done is closed when the computation has run once.
+	done := make(chan struct{})
+	var doneOnce sync.Once
 	e := h.executor
 
-	wg.Add(1)
 	runner := reactive.NewRerunner(r.Context(), func(ctx context.Context) (interface{}, error) {
-		defer wg.Done()
+		defer doneOnce.Do(func() { close(done) })
 
 		ctx = batch.WithBatching(ctx)
 
@@ -128,6 +129,12 @@ func (h *httpHandler) ServeHTTP(w http.ResponseWriter, r *http.Request) {
 		return nil, nil
 	}, DefaultMinRerunInterval, false)
 
-	wg.Wait()
+	// The rerunner never calls the computation if the request's context is
+	// cancelled before its first run (the client went away): do not wait for a
+	// run that will not happen. Stop still waits for a run that is in progress.
+	select {
+	case <-done:
+	case <-r.Context().Done():
+	}
 	runner.Stop()
 }
